@@ -22,7 +22,7 @@ ASSUMPTIONS = ['"documented types" = the type hints and docstrings; arguments of
                'termination = the call finishes within 3*10^6 + 2*10^4*(len+args) line events inside the library (deterministic, no wall clock)',
                'the error str raises for the same call is computed on the base text for the str-like methods']
 
-CFG = gen.Cfg(esc=True, odd=0.15, invalid=True, incomplete=True, max_ops=2, max_text=8)
+CFG = gen.Cfg(esc=True, odd=0.15, invalid=True, incomplete=True, max_ops=2, max_text=8, rich=True, min_text=2)
 
 BAD_SETTINGS = ['nope', 'bold1', -1, [1, -5], '-3', 'rgb(1,2)', 'rgb()', 'color256(x)', 'rgb(1,2,3', 1.5, [None], ['bold', 2.0], b'red',
                 'SELF1', 'SELF2', '', ';;', [], [[]], 'bold;nope', {'a': 1}]
